@@ -2,6 +2,13 @@
 
 package sctp
 
+import (
+	"errors"
+	"io"
+	"os"
+	"time"
+)
+
 // C18 — write/read API contract: rejected or failed calls have no side effects.
 
 // C18.L1: oversized, empty and closed-stream writes send nothing and do not disturb the
@@ -94,3 +101,101 @@ func vh_C18_L2_failed_write_restores_numbers() { vh_C15_L1_write_accounting() }
 // C18.L2c: a writer parked behind the gate when a graceful shutdown begins (local or
 // peer-initiated) is released with an error and queues nothing (same obligation as C08.L2).
 func vh_C18_L2_parked_writer_rejected_at_shutdown() { vh_C08_L2_parked_writer_rejected() }
+
+// C18.L4: the read deadline. A stream holds 0..1 readable message; a deadline is armed (the
+// deadline goroutine is queued, see vSpawnCh) and then, in every order the scenario
+// allows: the deadline passes, a too-small read is attempted, the deadline is re-armed or
+// cleared, the stream is reset by the peer (end-of-file) or torn down. Obligations: a
+// blocked or later read returns at the deadline with the deadline error instead of
+// waiting; no message is lost or duplicated; a short read does not disarm the deadline; a
+// replaced or cleared deadline never fires; the first terminal error (EOF, close) is never
+// overwritten by a later deadline expiry.
+func vh_C18_L4_read_deadline() {
+	a, _ := vNewAssoc()
+	cum := a.peerLastTSN()
+	hasMsg := vPick(2) == 1
+	if hasMsg {
+		c := vDataChunk(a, cum+1, 3, true, 2)
+		vassert(vDeliver(a, c) == nil, "DATA ok")
+	} else {
+		_, _ = a.OpenStream(3, PayloadTypeWebRTCBinary)
+	}
+	s := a.streams[3]
+	vassert(s != nil, "stream exists")
+	vassert(s.SetReadDeadline(time.Now().Add(time.Millisecond)) == nil, "deadline armed")
+	vassert(len(vSpawned) == 1 && s.readTimeoutCancel != nil, "the deadline is pending")
+	buf := make([]byte, 8)
+	switch vPick(5) {
+	case 0: // the deadline simply passes
+		vassert(vRunSpawned() == 1, "deadline goroutine ran")
+		vassert(errors.Is(s.readErr, ErrReadDeadlineExceeded), "the deadline error is posted for readers")
+	case 1: // a too-small read first: the message stays, the deadline stays armed
+		if hasMsg {
+			n, _, rerr := s.ReadSCTP(buf[:1])
+			vassert(n == 2 && errors.Is(rerr, io.ErrShortBuffer), "short-buffer error reporting the size needed")
+			vassert(s.readTimeoutCancel != nil, "a short read leaves the deadline armed")
+		}
+		vRunSpawned()
+		vassert(errors.Is(s.readErr, ErrReadDeadlineExceeded), "the deadline still fires after a short read")
+	case 2: // the deadline is replaced before it passes: the old one never fires
+		vassert(s.SetReadDeadline(time.Now().Add(time.Hour)) == nil, "re-armed")
+		vassert(len(vSpawned) == 2, "a new deadline goroutine")
+		first := vSpawned[0]
+		vSpawned = vSpawned[1:]
+		first()
+		vassert(s.readErr == nil, "a replaced deadline does not fire")
+		vSpawned = nil // the far deadline stays pending
+		if hasMsg {
+			n, _, rerr := s.ReadSCTP(buf)
+			vassert(n == 2 && rerr == nil, "the message is read normally")
+		}
+		vcover("end")
+		return
+	case 3: // the deadline is cleared before it passes
+		vassert(s.SetReadDeadline(time.Time{}) == nil, "cleared")
+		vassert(s.readTimeoutCancel == nil, "no deadline pending")
+		vRunSpawned()
+		vassert(s.readErr == nil, "a cleared deadline does not fire")
+		vcover("end")
+		return
+	case 4: // end-of-file or teardown arrives first; the deadline passes afterwards
+		var want error = io.EOF
+		if vPick(2) == 1 {
+			a.lock.Lock()
+			a.unregisterStream(s, io.EOF)
+			a.lock.Unlock()
+		} else {
+			want = ErrChunk
+			a.lock.Lock()
+			a.unregisterStream(s, ErrChunk)
+			a.lock.Unlock()
+		}
+		vRunSpawned()
+		vassert(errors.Is(s.readErr, want) && !errors.Is(s.readErr, ErrReadDeadlineExceeded), "a deadline that passes after end-of-file or teardown does not replace that error")
+		if hasMsg {
+			n, _, rerr := s.ReadSCTP(buf)
+			vassert(n == 2 && rerr == nil, "data received before the end is still read first")
+		}
+		vMustNotBlock("a read after end-of-file returns")
+		_, _, rerr := s.ReadSCTP(buf)
+		vMayBlock()
+		vassert(errors.Is(rerr, want), "then the terminal error")
+		vcover("end")
+		return
+	}
+	// the deadline has passed: reads return instead of blocking, data first
+	if hasMsg {
+		vMustNotBlock("a read with data available returns")
+		n, _, rerr := s.ReadSCTP(buf)
+		vMayBlock()
+		vassert(n == 2 && rerr == nil, "the message that arrived before the deadline is not lost")
+	}
+	vMustNotBlock("a read on an empty stream returns at the deadline instead of blocking")
+	n, _, rerr := s.ReadSCTP(buf)
+	vMayBlock()
+	vassert(n == 0 && errors.Is(rerr, ErrReadDeadlineExceeded), "deadline error, no duplicate of the message")
+	vassert(errors.Is(rerr, os.ErrDeadlineExceeded), "recognisable as os.ErrDeadlineExceeded")
+	// clearing the deadline makes the stream usable again
+	vassert(s.SetReadDeadline(time.Time{}) == nil && s.readErr == nil, "clearing the deadline removes the deadline error")
+	vcover("end")
+}
